@@ -100,9 +100,22 @@ def make_file(rng, n, tts, mode, gaps):
         v, hi, lo = nodes[u]
         info = {0: f'i{var_id[v]}', 1: f'i{permid[v]}', 3: f'n{v}'}[mode]
         lines.append((placed[u], info, ren(hi), ren(lo)))
+    # the optional `.auxids` line (not used by the modes the parser supports): the same ids,
+    # another numbering of the same integers, or unrelated numbers
+    ids_l = [var_id[v] for v in support]
+    k = rng.random()
+    if k < 0.4:
+        aux = None
+    elif k < 0.55:
+        aux = list(ids_l)
+    elif k < 0.85:
+        aux = list(ids_l)
+        rng.shuffle(aux)
+    else:
+        aux = [rng.randrange(0, 40) for _ in support]
     header = [nvars, mode, ordered, support, len(support),
-              [var_id[v] for v in support], [permid[v] for v in support],
-              None, len(roots), [ren(r) for r in roots], len(lines)]
+              ids_l, [permid[v] for v in support],
+              aux, len(roots), [ren(r) for r in roots], len(lines)]
     return header, DNodes(lines), [t for t in tts]
 
 
